@@ -25,7 +25,8 @@ CONSTANTS
   BugNoMismatch = FALSE
   BugNoWitness = FALSE
   BugKeepForever = FALSE
-  StaleSv = TRUE
+  StaleSv = FALSE
+  BugSendUnverified = FALSE
   Depth = 70
 INVARIANT Emit
 CHECK_DEADLOCK FALSE
